@@ -15,6 +15,23 @@ def run(chk):
     n += nv; classes |= vclasses; ndis += vdis
     nf, fclasses, fdis = engine.run_fontkit(chk, 'C05', 400 if chk.tier == 'thorough' else 40)
     n += nf; classes |= fclasses; ndis += fdis
+    # the first clause of the property: the char-infos are the decoded input characters in order (U+FFFD for ill-formed sequences) with
+    # strictly increasing code-unit offsets -- the text-reading model shared with C11 / C12 (C05_cinfo_chars_utf8) against gr_make_seg on
+    # well- and ill-formed texts in the three encodings
+    from props import c11 as _c11, utfgen as _G
+    mexe11, wutf = _c11.build(chk)
+    dcases = ['d%d decode %d %d %s' % (k, e, nch, _G.hexu(u, e)) for k, (e, nch, u) in enumerate(_G.gen_decode(chk.rng, False)) if k % (1 if chk.tier == 'thorough' else 3) == 0]
+    dml, dil, _ = vlib.run_pair(mexe11, wutf, dcases)
+    for c, m, i in zip(dcases, dml, dil):
+        if i is None or m is None:
+            chk.tie_break('harness', 'no result line', c[:200]); continue
+        if i.split()[1:] != m.split()[1:]:
+            t = i.split()
+            bases = [int(x.split(':')[1]) for x in t[3:] if ':' in x] if t[1:2] == ['D'] and t[2:3] != ['NULL'] else []
+            chk.violation('c05:cinfo:%s' % ' '.join(c.split()[2:])[:120], 'the char-infos of gr_make_seg are not the decoded characters of the text with their code-unit offsets: got %s, the decoding gives %s%s'
+                          % (' '.join(t[1:])[:200], ' '.join(m.split()[1:])[:200], '' if bases == sorted(set(bases)) else ' (offsets not strictly increasing)'), dict(case=c, got=i[:600]))
+        classes.add(('cinfo', c.split()[2], min(len(c.split()[4]) // 8, 4), i.split()[2][:4] if len(i.split()) > 2 else ''))
+    n += len(dcases)
     chk.notes.append('adversarial rule-action programs: %d cases, %d accepted programs executed' % (nv, ran))
     chk.cov.update(evaluations=n, distinct_nontrivial=len(classes), disagreements_checked=ndis, distribution=dist,
                    rule='%d texts per shipped font (16 fonts): repertoire windows, spaces / joiners, unmapped and astral characters, ill-formed units, three encodings, dir 0..7, '
